@@ -44,6 +44,8 @@ def run(an: Analysis, rep):
     rep.run(c02.r028, an, shx)
     from .common import identity_rule
     rep.run(identity_rule, an, rep, "R13.I", ["from_code"])
+    from .common import field_rewrite_rule as _frr13
+    rep.run(_frr13, an, rep, "R13.W")
     from .common import assert_guard_rule as _agr13
     rep.run(_agr13, an, rep, "R13.A", ["from_code"])
     rep.run(c02.r02f, an, SharedRules(rep, "R13.F", "the decoder's instruction function folded over witness code units (shared with C02's R02.F): the blocks it returns begin exactly at "
